@@ -984,6 +984,30 @@ class Interp:
     def e_bytestr(self, e, env):
         return VLabel(e["v"])
 
+    def _lazy_file_const(self, n):
+        """a `const` item of the current file whose initialiser is not a plain integer (an array of limbs, a tuple, ..): evaluated from
+        its AST on first use (free of inputs by definition); u64-typed entries are tagged as 64-bit values"""
+        if not getattr(self, "file_root", None):
+            return None
+        cache = self.__dict__.setdefault("_lazy_consts", {})
+        key = (self.file_root[1], n)
+        if key in cache:
+            return cache[key]
+        val = None
+        for it_ in file_index(self.file_root[0], self.file_root[1]):
+            if it_.get("kind") == "const" and it_.get("path", "").split("::")[-1] == n and it_.get("expr"):
+                cache[key] = None           # no recursion through itself
+                val = self.expr(it_["expr"], ChildEnv(None))
+                if "u64" in str(it_.get("ty", "")):
+                    tag = lambda x: U64(x) if isinstance(x, int) and not isinstance(x, bool) else x
+                    if isinstance(val, VArr):
+                        val = VArr([tag(x) for x in val.items], val.kind)
+                    else:
+                        val = tag(val)
+                break
+        cache[key] = val
+        return val
+
     def e_ref(self, e, env):
         return self.expr(e["e"], env)
 
@@ -1000,6 +1024,9 @@ class Interp:
                 return v_
             if n in self.consts:
                 return self.consts[n]
+            lazy_ = self._lazy_file_const(n)
+            if lazy_ is not None:
+                return lazy_
             self.fail(e, f"unknown name `{n}`")
         p = e["path"]
         if p in self.consts:
@@ -2712,6 +2739,20 @@ class Interp:
             return UNIT
         if m == "last" and isinstance(recv, (VArr, VIter)) and not args:
             return VOpaque("Some", [recv.items[-1]]) if recv.items else VOpaque("None")
+        if m in ("map_or", "map_or_else", "map", "unwrap_or", "unwrap_or_default", "copied", "cloned") and isinstance(recv, VOpaque) \
+                and recv.name in ("Some", "None") and len(recv.args) == (1 if recv.name == "Some" else 0) and ("." + m) not in self.contracts:
+            # combinators on a CONSTRUCTED Option
+            some_ = recv.name == "Some"
+            if m in ("copied", "cloned") and not args:
+                return recv
+            if m == "map" and len(args) == 1 and isinstance(args[0], VClosure):
+                return VOpaque("Some", [self.call_closure(args[0], [recv.args[0]])]) if some_ else recv
+            if m == "map_or" and len(args) == 2 and isinstance(args[1], VClosure):
+                return self.call_closure(args[1], [recv.args[0]]) if some_ else args[0]
+            if m == "map_or_else" and len(args) == 2 and isinstance(args[0], VClosure) and isinstance(args[1], VClosure):
+                return self.call_closure(args[1], [recv.args[0]]) if some_ else self.call_closure(args[0], [])
+            if m == "unwrap_or" and len(args) == 1:
+                return recv.args[0] if some_ else args[0]
         if m == "first" and isinstance(recv, (VArr, VIter)) and not args:
             return VOpaque("Some", [recv.items[0]]) if recv.items else VOpaque("None")
         if m == "filter" and len(args) == 1 and isinstance(args[0], VClosure) and isinstance(recv, VOpaque) \
